@@ -1,6 +1,9 @@
 """C16 Request ids are unique per connection under concurrent use."""
 import dis
+import io
+import logging
 import random
+import urllib.error
 import sys
 import threading
 import time
@@ -20,7 +23,9 @@ ID = "C16"
 LEVEL = "exploration"
 RULE = ("workload 1 (stress): rounds of 4-8 threads x 40-60 requests over one base connection and connections "
         "derived from it (BAuthConn, path-prefix HttpConn, a connection derived from a derived one, a connection "
-        "whose adapter supplies the caller's own ids), every 10th "
+        "whose adapter supplies the caller's own ids), all five verbs, bodies of "
+        "every kind, params, raw responses, every 10th request failing with HTTPError (it still consumes its number), "
+        "a quarter of the rounds with DEBUG logging on, every 10th "
         "request carrying its own X-Request-ID, three in ten re-using a headers dict the caller keeps; switch interval 1 microsecond and sys.monitoring LINE events "
         "local to _generate_request_id and do_request yielding the GIL (sleep(0)) with probability 1/2. "
         "Workload 2 (bounded schedule enumeration, pre-emption bound 1): for EVERY bytecode offset of "
@@ -76,6 +81,17 @@ class Resp:
         return {}
 
 
+class ErrBody(io.BytesIO):
+    """what http.client hands to HTTPError as its body"""
+
+    def __init__(self, method):
+        super().__init__(b"")
+        self._method = method
+
+    def getheaders(self):
+        return []
+
+
 class Opener:
     """records requests; its own state is protected by its own lock"""
 
@@ -86,6 +102,9 @@ class Opener:
     def open(self, request):
         with self.lock:
             self.reqs.append((threading.get_ident(), request))
+        if request.full_url.endswith("/fail"):
+            # a failed request has consumed its number like any other
+            raise urllib.error.HTTPError(request.full_url, 500, "boom", {}, ErrBody(request.method))
         return Resp(request.method)
 
 
@@ -249,20 +268,46 @@ def stress_round(ctx, seed, interleavings, case_no):
     start = threading.Barrier(n_threads)
     own_expected = []
     errors = []
+    http_logger = logging.getLogger(conn_http.__name__)
+    old_level = http_logger.level
+    if case_no % 4 == 3:
+        # requests and responses are written to the debug log (a NullHandler keeps it off the console)
+        if not http_logger.handlers:
+            http_logger.addHandler(logging.NullHandler())
+        http_logger.propagate = False
+        http_logger.setLevel(logging.DEBUG)
 
     def worker(i):
         c = conns[i % len(conns)]
         reused = {'X-Worker': str(i)}     # a headers dict the caller keeps and passes again
+        wrng = random.Random(seed * 31 + i)
         try:
             start.wait()
             for k in range(n_req):
-                verb = (c.get, c.post, c.put)[k % 3]
+                verb = (c.get, c.post, c.put, c.delete, c.patch)[wrng.randrange(5)]
+                kw = {}
+                shape = wrng.randrange(8)
+                if shape == 0:
+                    kw['data'] = {'k': k}
+                elif shape == 1:
+                    kw['data'] = "text %d" % k
+                elif shape == 2:
+                    kw['data'] = b"bytes"
+                elif shape == 3:
+                    kw['params'] = {'q': str(k)}
+                elif shape == 4:
+                    kw['raw_response'] = True
                 if k % 10 == 3 and not uses_id_adapter(i):
-                    verb("/p", headers={'X-Request-ID': f"own-{i}-{k}"})
+                    verb("/p", headers={'X-Request-ID': f"own-{i}-{k}"}, **kw)
                 elif k % 10 in (5, 6, 8):
-                    verb("/p", headers=reused)
+                    verb("/p", headers=reused, **kw)
+                elif k % 10 == 9 and 'params' not in kw:
+                    try:
+                        verb("/fail", **kw)
+                    except urllib.error.HTTPError:
+                        pass
                 else:
-                    verb("/p")
+                    verb("/p", **kw)
         except Exception as err:  # pragma: no cover
             errors.append(repr(err))
 
@@ -276,6 +321,7 @@ def stress_round(ctx, seed, interleavings, case_no):
         for t in threads:
             t.join(120)
     finally:
+        http_logger.setLevel(old_level)
         sys.setswitchinterval(old_si)
         mon.set_local_events(TOOL, gen_code, 0)
         mon.set_local_events(TOOL, do_code, 0)
